@@ -51,6 +51,7 @@ class CostFunction(FileIOMixin, object):
     _MODEL_NAME = "model"
     _COV_MAT_CHOLESKY_NAME = "total_cov_mat_cholesky"
     _COV_MAT_QR_NAME = "total_cov_mat_qr"
+    _COV_MAT_NAME = "total_cov_mat"
     _ERROR_NAME = "total_error"
 
     def __init__(self, cost_function, arg_names=None, add_constraint_cost=True, add_determinant_cost=False, fast_math=False):
@@ -651,7 +652,8 @@ class CostFunction_GaussApproximation(CostFunction):
         _cost_function_description = "Gaussian approximation of Poisson NLL"
         if errors_to_use.lower() == "covariance":
             _cost_function = self.gaussian_approximation_covariance
-            _arg_names = [self._DATA_NAME, self._MODEL_NAME, self._COV_MAT_CHOLESKY_NAME if fast_math else self._COV_MAT_QR_NAME]
+            # the cost function decomposes V + diag(model) itself, so it needs the covariance matrix, not a decomposition of it
+            _arg_names = [self._DATA_NAME, self._MODEL_NAME, self._COV_MAT_NAME]
             _cost_function_description += " (with covariance matrix)"
         elif errors_to_use.lower() == "pointwise":
             _cost_function = self.gaussian_approximation_pointwise_errors
